@@ -344,9 +344,12 @@ func (e *env) finish(quiet, grace time.Duration, shutdown func()) (toks []string
 				break
 			}
 			if time.Now().After(dl) {
-				k, where, parked := kafkaGoroutinesP()
+				k, where, parked, orphan := kafkaGoroutinesPO()
 				if parked {
 					e.ft.add("parked-in-promise")
+				}
+				if orphan {
+					e.ft.add("orphan-conn")
 				}
 				g := k - e.baseK
 				if g < 0 {
